@@ -153,7 +153,9 @@ def build(ctx, p):
         if not ok:
             return None
         vs0 = sorted(r.variables())
-        ok, tr0 = ctx.call(layout.configure, r, top=rng.choice(vs0), model=model, clause='pre-configure')
+        relnodes = sorted(r.variables() - g0.variables())
+        top0 = rng.choice(relnodes) if relnodes and rng.random() < 0.4 else rng.choice(vs0)
+        ok, tr0 = ctx.call(layout.configure, r, top=top0, model=model, clause='pre-configure')
         if not ok:
             return None
         if rng.random() < .6:
@@ -165,7 +167,14 @@ def build(ctx, p):
         ok, g = ctx.call(penman.decode, s, model=model, clause='pre-decode')
         if not ok:
             return None
-        if rng.random() < .7:
+        if top0 in relnodes and rng.random() < .7:
+            # the text was written from a relation node; the graph is then re-topped at one of that
+            # relation's arguments (the markers still say the relation node opened them)
+            args = sorted({t for s_, r_, t in g.triples if s_ == top0 and t in g.variables() and t != top0})
+            if args:
+                g.top = rng.choice(args)
+                ctx.count('retopped_at_argument_of_top_relation')
+        elif rng.random() < .7:
             g.top = rng.choice(sorted(g.variables()))
         cls = 'reified-text'
     elif kind == 0:
@@ -202,6 +211,8 @@ def build(ctx, p):
         prog = rng.choice([['re'], ['re', 'de'], ['re', 'ra'], ['ra'], ['re', 'ib']])
     elif cls == 'reified-text' and rng.random() < 0.6:
         prog = ['de'] + [op for op in ('ib', 'ra', 're') if rng.random() < 0.6]
+        if rng.random() < 0.3:
+            prog = ['de', 're'] + (['de'] if rng.random() < 0.5 else [])
     elif rng.random() < 0.35:
         prog = [op for op in CLI_ORDER if rng.random() < 0.6] or ['re']
     else:
